@@ -369,7 +369,18 @@ def K():
                 out[unchars(name)] = Content(content_type(unchars(c[1])), lambda: [b'\x00\x01\x02'])
         return out
 
-    _K.update(dict(Py26=Py26, Py27=Py27, Twisted=Twisted, Ext=Ext, RecTT=RecTT, RecText=RecText, RecTBT=RecTBT,
+    class StreamRecorder(real.StreamResult):
+        """records test id and test_tags of every final status event"""
+
+        def __init__(self):
+            real.StreamResult.__init__(self)
+            self._sent = []
+
+        def status(self, test_id=None, test_status=None, test_tags=None, **kw):
+            if test_status not in (None, 'inprogress'):
+                self._sent.append([int(test_id[1:]), tagnums(test_tags or ())])
+
+    _K.update(dict(StreamRecorder=StreamRecorder, Py26=Py26, Py27=Py27, Twisted=Twisted, Ext=Ext, RecTT=RecTT, RecText=RecText, RecTBT=RecTBT,
                    make_test=make_test, make_details=make_details, canon_time=canon_time, testtools=testtools, real=real))
     return _K
 
@@ -381,7 +392,8 @@ class Graph:
         self.k = K()
         self.genuine = genuine
         self.leaves = []
-        self.nodes = []          # (path, object) of every node, pre-order
+        self.points = []         # observation points, pre-order: leaves and the recorder of every e2s node
+        self.nodes = []          # (path, object) of every node
         self.root = self.build(shape, ())
         self.tests = {}
 
@@ -396,15 +408,19 @@ class Graph:
         if kind == 'sink':
             o = {'py26': k['Py26'], 'py27': k['Py27'], 'twisted': k['Twisted'], 'ext': k['Ext']}[s[1]]()
             self.leaves.append(o)
+            self.points.append(o)
         elif kind == 'tt':
             o = (k['testtools'].TestResult if self.genuine else k['RecTT'])(failfast=s[1])
             self.leaves.append(o)
+            self.points.append(o)
         elif kind == 'text':
             o = (k['testtools'].TextTestResult if self.genuine else k['RecText'])(io.StringIO(), failfast=s[1])
             self.leaves.append(o)
+            self.points.append(o)
         elif kind == 'tbt':
             o = k['RecTBT']()
             self.leaves.append(o)
+            self.points.append(o)
         elif kind == 'etod':
             o = real.ExtendedToOriginalDecorator(self.build(s[1], path + (0,)))
         elif kind == 'deco':
@@ -416,7 +432,10 @@ class Graph:
         elif kind == 'multi':
             o = real.MultiTestResult(*[self.target(c, path + (i,)) for i, c in enumerate(s[1:])])
         elif kind == 'e2s':
-            o = real.ExtendedToStreamDecorator(real.StreamToExtendedDecorator(self.target(s[1], path + (0,))))
+            rec = k['StreamRecorder']()
+            self.points.append(rec)
+            o = real.ExtendedToStreamDecorator(real.CopyStreamResult(
+                [real.StreamToExtendedDecorator(self.target(s[1], path + (0,))), rec]))
         else:
             raise ValueError('unknown shape %r' % (s,))
         self.nodes.append((path, o))
@@ -538,7 +557,7 @@ def gen_text(rng):
     return ''.join(rng.choice(' \n\tab{}: ') for _ in range(rng.randint(0, 6)))
 
 
-def gen_details(rng, allow_binary=True, allow_empty=True):
+def gen_details(rng, allow_binary=True, allow_empty=True, nonempty_text=False):
     n = rng.choice([0, 1, 1, 2, 2, 3]) if allow_empty else rng.choice([1, 1, 2, 3])
     names = rng.sample(NAMES, n)
     out = []
@@ -546,7 +565,8 @@ def gen_details(rng, allow_binary=True, allow_empty=True):
         if nm != 'reason' and allow_binary and rng.random() < 0.2:
             out.append([chars(nm), ['binary', chars(rng.choice(BINARY))]])
         else:
-            out.append([chars(nm), ['text', chars(gen_text(rng))]])
+            t = gen_text(rng)
+            out.append([chars(nm), ['text', chars(t if t or not nonempty_text else 'x')]])
     return out
 
 
@@ -651,3 +671,43 @@ def wf_hist(h):
         if not (a[0] == 'startTest' and b[0] == 'add' and c[0] == 'stopTest' and a[1] == b[2] == c[1]):
             return False
     return True
+
+
+def seen_of(point):
+    """(test, tags) at each outcome of an observation point"""
+    if hasattr(point, '_sent'):
+        return point._sent
+    return [[c[2], t] for c, t in point._log if c[0] == 'add']
+
+
+def starts_run(h):
+    return bool(h) and h[0] == ['startTestRun']
+
+
+def wf_tag(h):
+    """mirror of Spec.C17.wfTag"""
+    p, cur = 0, 0
+    for c in h:
+        k = c[0]
+        if k == 'startTest':
+            if p != 0:
+                return False
+            p, cur = 1, c[1]
+        elif k == 'add':
+            if p == 1 and c[2] == cur:
+                p = 2
+            elif p == 0:
+                p, cur = 3, c[2]
+            else:
+                return False
+        elif k == 'stopTest':
+            if p not in (2, 3) or c[1] != cur:
+                return False
+            p, cur = 0, 0
+        elif k in ('startTestRun', 'stopTestRun'):
+            if p != 0:
+                return False
+        elif k == 'tags':
+            if p == 3:
+                return False
+    return p == 0
